@@ -42,3 +42,11 @@ Print Assumptions C06_empty_chunk.
 Theorem C06_executable_twin : forall ap src chunks, arun_f ap src chunks = arun ap src chunks.
 Proof. exact arun_f_eq. Qed.
 Print Assumptions C06_executable_twin.
+
+(* fix 58dc68d: the appender truncates after the relocated EVLRs; whenever nothing lies beyond them (every original written by
+   laspy) this is exactly the appender of the theorems above; the extracted driver runs the truncating one *)
+Theorem C06_truncating_twin : forall s, 0 <= a_pos s ->
+  (forall eb e es, a_evlrs s = Some (e :: es) -> enc_vlrs true (e :: es) = Ok eb -> len (a_file s) <= a_pos s + len eb) ->
+  aclose_t s = aclose s.
+Proof. exact aclose_t_eq. Qed.
+Print Assumptions C06_truncating_twin.
